@@ -746,7 +746,13 @@ def _search(run, broken):
 
 
 def replay(run, rp):
+    """every case of a run is written to the SAME path and read in the same process, so a failure may depend on the history
+    (state kept by the reader between calls); the replay therefore reads two other generated files at that path first"""
+    import random as _random
     try:
+        pre = _random.Random("c01-replay-history")
+        for _ in range(2):
+            failing(gen_case(pre))
         if "case" in rp:
             return failing(rp["case"]) is not None
         return any(failing(c) is not None for c in rp.get("cases", []))
